@@ -161,11 +161,13 @@ pub fn kind(w: &WMsg) -> u8 {
 }
 
 /// Value submitted by player `h` for user frame `f`. Never 0; encodes the player in the top
-/// nibble so that any mis-attribution of player or frame is visible.
+/// nibble and the (held) frame number in the next 16 bits, so that values are unique per player
+/// and submission and any mis-attribution of player or frame is visible; the low 12 bits are a
+/// seed-dependent nonce.
 pub fn input_value(seed: u64, h: usize, f: i32, sticky: u32) -> Inp {
     let k = if sticky > 1 { f as u64 / sticky as u64 } else { f as u64 };
     let mut r = Rng::new(seed ^ ((h as u64 + 1) << 48) ^ k.wrapping_mul(0x1_0001));
-    Inp(((h as u32 + 1) << 28) | (r.next() as u32 & 0x0FFF_FFFE) | 1)
+    Inp(((h as u32 + 1) << 28) | (((k as u32) & 0xFFFF) << 12) | (r.next() as u32 & 0xFFF))
 }
 
 // ------------------------------------------------------------------------------------------
